@@ -34,6 +34,8 @@ MAP = [
     ("structured bindings of const, rvalue and copied elements were ill-formed", "C20", "probe cells 41-43 for every list and allocator kind: 'auto& [..] = const_element', 'const auto& [..] = element', 'auto&& [..] = std::move(element)', 'auto [..] = element' (side remark of the sub-agent that seeded C20-r3)"),
     ("move assignment from an unequal allocator into a moved-from vector wrote through a null block", "C09", "V1/NP pair: new(0,cap 2); mc(0,1); des(1); new(1,cap 2,arena 1); eb(1); ma(1,0): SEGV (six operations; side remark of the sub-agent that seeded C08-r4)"),
     ("after a failed copy assignment the vector reported a capacity it no longer had", "C17", "V1 pair (any allocator kind): new(0,cap 0); new(1,cap 2); ca(0,1) with the 1st allocation failing, then clear() and capacity() emplace_backs: SEGV (address table gone, capacity() still 2); F1/PP likewise (block gone)"),
+    ("copy assignment between unequal propagating allocators released the block before allocating", "C17", "V3/PP pair: new(0,cap 0); new(1,cap 0,arena 1); ca(0,1) with the 1st allocation failing: block pointer null while data_end() still pointed into the released block"),
+    ("a failed copy assignment left data_end() of the target pointing into a released block", "C17,C18", "V3 pair: new(0,cap 0); new(1,cap 0,budget 2); ca(1,0) with the 2nd allocation (address table) failing: size() == 0 but data_end() - data_begin() garbage; copying the vector passed it to memcpy (side remark of the sub-agent that seeded C17-r6)"),
     ("emplace_back memcpy'd sources whose conversion", "C15", "bool <- u8 (stored byte 02), Conv <- int (converting constructor skipped), int <- Src (conversion operator skipped)"),
     ("the vector iterators were not default constructible", "C20,C11", "probe cell 'iterator default construction' for every list"),
     ("structured bindings of a ContiguousElement did not compile", "C20", "probe cell 'structured bindings of an element' for every list with 2 or 3 parameters"),
